@@ -54,6 +54,9 @@ type lockWalker struct {
 	held    string
 	facts   *methodFacts
 	methods map[string]bool
+	// optional: lock held at every call of a method with this name (whatever the receiver)
+	watchCall string
+	watchHeld []string
 }
 
 func (w *lockWalker) isRecvField(e ast.Expr, field string) bool {
@@ -117,6 +120,9 @@ func (w *lockWalker) reads(e ast.Node) {
 				return false
 			}
 			if s, ok := x.Fun.(*ast.SelectorExpr); ok {
+				if w.watchCall != "" && s.Sel.Name == w.watchCall {
+					w.watchHeld = append(w.watchHeld, w.held)
+				}
 				if id, ok := s.X.(*ast.Ident); ok && id.Name == w.recv && w.methods[s.Sel.Name] {
 					w.facts.calls = append(w.facts.calls, callFact{s.Sel.Name, w.held})
 				} else {
@@ -486,6 +492,7 @@ func main() {
 	fmt.Fprintf(&b, "/-- GetIntSet: operator of the err test guarding the append (\"==\" keeps the valid integers) -/\ndef intSetErrOp : String := %s\n\n", leanStr(sm.intSetErrOp))
 	fmt.Fprintf(&b, "/-- reload: the comparison operators of that test -/\ndef sameVersionOps : List String := [%s]\n\n", joinQuoted(sm.cmpOps))
 	fmt.Fprintf(&b, "/-- options.go WithConfigObserver: the field is assigned the caller's registry itself (the parameter), not something derived from it -/\ndef observerStoredDirectly : Bool := %v\n\n", observerDirect(filepath.Join(dir, "options.go")))
+	fmt.Fprintf(&b, "/-- config/ConfigObserver.go: lock of the registry held at each call of a target's ApplyConfig -/\ndef observerCallbackHeld : List Held := [%s]\n\n", strings.Join(observerCallbackHeld(filepath.Join(*repo, "config", "ConfigObserver.go")), ", "))
 	b.WriteString("/-- the table assigned by ApplyDefault -/\ndef defaults : List (String × String) := [\n")
 	for i, d := range sm.defaults {
 		sep := ","
@@ -587,4 +594,32 @@ func observerDirect(goFile string) bool {
 		})
 	}
 	return found && ok
+}
+
+// observerCallbackHeld: for every call `….ApplyConfig(…)` in a method of ConfigObserver, the lock of the
+// receiver held at that point (none | r | w).
+func observerCallbackHeld(goFile string) []string {
+	fset := token.NewFileSet()
+	f, err := parser.ParseFile(fset, goFile, nil, 0)
+	if err != nil {
+		return []string{".w"} // unreadable: must not pass silently
+	}
+	var out []string
+	for _, d := range f.Decls {
+		fd, ok := d.(*ast.FuncDecl)
+		if !ok || fd.Body == nil {
+			continue
+		}
+		recv, ok := recvOf(fd, "ConfigObserver")
+		if !ok {
+			continue
+		}
+		mf := methodFacts{name: fd.Name.Name}
+		w := &lockWalker{recv: recv, field: "observer", held: "none", facts: &mf, methods: map[string]bool{}, watchCall: "ApplyConfig"}
+		w.stmts(fd.Body.List)
+		for _, h := range w.watchHeld {
+			out = append(out, "."+h)
+		}
+	}
+	return out
 }
